@@ -184,8 +184,8 @@ var verifNonceSeen string
 // engine): it appends a marker carrying the nonce it was given.
 func verifInsertStub(nonce, body string) (string, error) {
 	verifNonceSeen = nonce
-	if len(body) > 0 && body[0] == 'F' {
-		// stands for a document without a body element (a frameset page): nothing is inserted
+	if len(body) >= 9 && body[:9] == "<frameset" {
+		// a document without a body element (a frameset page): nothing is inserted
 		return body, ErrBodyNotFound
 	}
 	return body + "<RELOAD nonce=" + nonce + ">", nil
